@@ -208,11 +208,16 @@ def expandHOp (t : Ty) (v : Val) : HOp → Option (List Impl.Op × Nat)
     some (ops, (ops.map (costBound t)).sum)
   | .setc i x => some ([.set i x], costBound t (.set i x))
   | .setv i x =>
-    -- only the path and the new container's own pair nodes are hashed: its field sub-trees are taken over
-    let skeleton := match elemTyAt t i with
-      | some (.container fs) => Spec.pow2ceil fs.length - 1
-      | _ => 0
-    some ([.set i x], Impl.treeDepth t + skeleton)
+    -- only the path and the new container's own pair nodes are hashed: its field sub-trees are taken over — except
+    -- byte-array fields, which are plain values: their backing is rebuilt and hashed again
+    let (skeleton, bytesExtra) := match elemTyAt t i with
+      | some (.container fs) =>
+        (Spec.pow2ceil fs.length - 1,
+         ((fs.zip (seqElems x)).map fun (ft, fv) => match ft with
+            | .bytevector _ | .bytelist _ => (match Impl.construct H ft fv with | some nd => pairCount nd | none => 0)
+            | _ => 0).sum)
+      | _ => (0, 0)
+    some ([.set i x], Impl.treeDepth t + skeleton + bytesExtra)
   | .seth i x =>
     -- the inserted sub-value is hashed already: only the path to it is re-hashed
     some ([.set i x], Impl.treeDepth t)
